@@ -414,6 +414,18 @@ func (ex *Exec) fsIntrinsic(fn *ssa.Function, name string, args []Value) (Value,
 		case "encodeString", "encodeBytes":
 			s.ntok++
 			tok := fmt.Sprintf("H%d", s.ntok)
+			if r, isRope := args[0].(Rope); isRope {
+				// a diagnostic text with a rendered symbolic number in it: the number is replaced by a placeholder
+				var bs []*Term
+				for _, sg := range r.segs {
+					if sg.opaque {
+						bs = append(bs, ex.ts.Const(8, '?'))
+					} else {
+						bs = append(bs, sg.b...)
+					}
+				}
+				args[0] = Str{bs}
+			}
 			s.tokens[tok] = args[0]
 			return ex.strConst(tok), true
 		case "decodeString":
